@@ -257,6 +257,20 @@ int muggle_str_rstrip_idx(const char *str)
 //     return 0;
 // }
 
+/*
+ * strtoul and strtoull accept a leading '-' and return the negated value in
+ * the unsigned type; such a numeral is out of range for an unsigned result
+ */
+static int muggle_str_is_negative(const char *str)
+{
+	while (isspace((unsigned char)*str))
+	{
+		++str;
+	}
+
+	return *str == '-';
+}
+
 int muggle_str_toi(const char *str, int *pval, int base)
 {
 	long ret;
@@ -282,12 +296,14 @@ int muggle_str_toi(const char *str, int *pval, int base)
 			return 0;
 		}
 	}
-	else if ((ret == LONG_MAX || ret == LONG_MIN) && errno == ERANGE)
+
+	if ((ret == LONG_MAX || ret == LONG_MIN) && errno == ERANGE)
 	{
 		// out of range
 		return 0;
 	}
-	else if (ret > INT_MAX || ret < INT_MIN)
+
+	if (ret > INT_MAX || ret < INT_MIN)
 	{
 		// out of integer range
 		return 0;
@@ -326,6 +342,18 @@ int muggle_str_tou(const char *str, unsigned int *pval, int base)
 	if (ret == ULONG_MAX)
 	{
 		// out of range or negative integer
+		return 0;
+	}
+
+	if (ret > UINT_MAX)
+	{
+		// out of unsigned integer range
+		return 0;
+	}
+
+	if (ret != 0 && muggle_str_is_negative(str))
+	{
+		// negative integer
 		return 0;
 	}
 
@@ -397,6 +425,12 @@ int muggle_str_toul(const char *str, unsigned long *pval, int base)
 		return 0;
 	}
 
+	if (*pval != 0 && muggle_str_is_negative(str))
+	{
+		// negative integer
+		return 0;
+	}
+
 	return 1;
 }
 int muggle_str_toll(const char *str, long long *pval, int base)
@@ -460,6 +494,12 @@ int muggle_str_toull(const char *str, unsigned long long *pval, int base)
 	if (*pval == ULLONG_MAX)
 	{
 		// out of range
+		return 0;
+	}
+
+	if (*pval != 0 && muggle_str_is_negative(str))
+	{
+		// negative integer
 		return 0;
 	}
 
